@@ -8,6 +8,7 @@ import pandas as pd
 
 CAPTURES = {}
 _INSTALLED = {}
+UNAVAILABLE = {}  # key -> reason: the probe point does not exist in this tree (renamed / removed); clauses that need it are skipped
 
 
 def reset():
@@ -25,8 +26,11 @@ def take():
 def _wrap(cls, name, key, grab):
     if (cls, name) in _INSTALLED:
         return
-    orig = getattr(cls, name)
     CAPTURES.setdefault(key, [])
+    if not hasattr(cls, name):
+        UNAVAILABLE[key] = f"{cls.__name__}.{name} does not exist"
+        return
+    orig = getattr(cls, name)
 
     @functools.wraps(orig)
     def wrapper(self, *a, **k):
@@ -86,15 +90,24 @@ def install_nonparametric_intervals():
 
 def install_gaussian_aggregate():
     from elexmodel.models.GaussianElectionModel import GaussianElectionModel
+    from elexmodel.models.ConformalElectionModel import ConformalElectionModel
+
+    def grab_bounds(self, a, k, ret):
+        return dict(cls=type(self).__name__, lower=np.array(ret.lower, dtype=float, copy=True), upper=np.array(ret.upper, dtype=float, copy=True),
+                    conformalization=ret.conformalization.copy(), conf_frac=a[2], alpha=a[3], estimand=a[4],
+                    n_reporting=a[0].shape[0], reporting_ids=a[0]["geographic_unit_fips"].tolist())
+
+    _wrap(ConformalElectionModel, "get_unit_prediction_interval_bounds", "interval_bounds", grab_bounds)
 
     def grab(self, a, k, ret):
-        mb = self.modeled_bounds_agg
+        try:
+            mb = self.get_all_conformalization_data_agg()[0]  # public accessor of the per-group model rows
+        except Exception:  # noqa: BLE001
+            mb = getattr(self, "modeled_bounds_agg", None)
         return dict(aggregate=list(a[3]), alpha=a[4], estimand=a[6], modeled_bounds=None if mb is None else mb.copy(),
                     conformalization=a[5].conformalization.copy(), lower=np.array(ret[0], dtype=float, copy=True),
                     upper=np.array(ret[1], dtype=float, copy=True),
                     nonreporting=a[1].copy(), reporting=a[0].copy(), unexpected=a[2].copy(),
-                    unadj_lower=np.array(self.alpha_to_nonreporting_lower_bounds.get(a[4]), dtype=float, copy=True) if a[4] in self.alpha_to_nonreporting_lower_bounds else None,
-                    unadj_upper=np.array(self.alpha_to_nonreporting_upper_bounds.get(a[4]), dtype=float, copy=True) if a[4] in self.alpha_to_nonreporting_upper_bounds else None,
                     beta=None, winsorize=None)
 
     _wrap(GaussianElectionModel, "get_aggregate_prediction_intervals", "gaussian_agg", grab)
